@@ -79,7 +79,7 @@ def check(ctx, rep):
                 key=f"R06a|{P.qualname}|override", nontrivial=False)
     for P in protos:
         h = prog.resolve_method(P, "handle")
-        if h is None or h.cls is not P:
+        if h is None or not ctx.owns(P, h):
             continue
         problems = []
         for n in ast.walk(h.node):
@@ -189,7 +189,7 @@ def check(ctx, rep):
     for P in protos:
         for mname in ("__init__", "handle"):
             m = prog.resolve_method(P, mname)
-            if m is None or m.cls is not P:
+            if m is None or not ctx.owns(P, m):
                 continue
             from ..structure import assigns_attr, helper_calls, inline_attr_setters
 
@@ -250,7 +250,7 @@ def check(ctx, rep):
     # decode after split: structural parsing must see the still-encoded text
     for P in protos:
         h = prog.resolve_method(P, "handle")
-        if h is None or h.cls is not P:
+        if h is None or not ctx.owns(P, h):
             continue
         problems = []
         n_split = 0
@@ -294,7 +294,7 @@ def check(ctx, rep):
     for P in protos:
         for mname in ("adjustmimetype", "adjust_mimetype"):
             m = prog.resolve_method(P, mname)
-            if m is None or (m.cls is not P and m.cls is not None and prog.is_subclass(m.cls, pb) and m.cls in protos):
+            if m is None or (not ctx.owns(P, m) and m.cls is not None and prog.is_subclass(m.cls, pb) and m.cls in protos):
                 continue  # inherited from another protocol class: decided there
             param = m.params[1] if len(m.params) > 1 else "mimetype"
             expected = _listing_type(ctx, prog, P)
@@ -364,7 +364,7 @@ def link_target_obligations(ctx, rep, rule="R06e"):
     QUOTES = ("quote", "quote_plus", "quote_from_bytes")
     for P in ctx.protocol_classes():
         ro = prog.resolve_method(P, "renderobjinfo")
-        if ro is None or ro.cls is not P:
+        if ro is None or not ctx.owns(P, ro):
             continue
         if not any(isinstance(n, ast.Call) and (dotted(n.func) or "").split(".")[-1] in QUOTES for n in ast.walk(ro.node)) and \
                 not any(isinstance(n, ast.Call) and isinstance(n.func, ast.Attribute) and n.func.attr == "geturl" for n in ast.walk(ro.node)):
